@@ -240,12 +240,12 @@ func (w *AWorld) makeDir(kind dirKind, base string, def PSet) {
 }
 
 func dirTriple(d *lib.Dir) string {
-	var ids []int
+	var ids []uint64
 	for id, h := range d.Params {
 		_ = h
-		ids = append(ids, int(id))
+		ids = append(ids, uint64(id))
 	}
-	sort.Ints(ids)
+	sort.Slice(ids, func(i, j int) bool { return ids[i] < ids[j] })
 	return fmt.Sprintf("base=%s default=%d sets=%v", d.BaseDir, d.Default, ids)
 }
 
@@ -355,9 +355,9 @@ func propC18(r *Run) {
 		cur := cfgA
 		nreload := 1 + r.Choose("nreloads", 3)
 		// background clients
-		for i := 0; i < 1+r.Choose("nclients", 3); i++ {
+		for i, iN := 0, 1+r.Choose("nclients", 3); i < iN; i++ {
 			var plan []*Call
-			for k := 0; k < 2+r.Choose("ncalls", 4); k++ {
+			for k, kN := 0, 2+r.Choose("ncalls", 4); k < kN; k++ {
 				c := &Call{Agent: a.idx, Via: "agent", User: "dana", Kind: "authenticate", PW: "dana-pw"}
 				switch r.Choose("bg-kind", 4) {
 				case 0:
@@ -377,11 +377,41 @@ func propC18(r *Run) {
 			torn      bool
 			text      string
 			desc      string
+			dirOnly   bool // refused only because of the directory: repairable without touching the file
+			kind      dirKind
 		}
 		var pend *pending
 		issued := 0
+		// a reload refused only because of the new directory can be retried after the operator
+		// has repaired the directory - the configuration file is not touched again
+		var repairable *pending
+		var repairKind dirKind
 		extra := func() []action {
-			if issued >= nreload || pend != nil {
+			if pend != nil {
+				return nil
+			}
+			if repairable != nil {
+				rp, rk := repairable, repairKind
+				return []action{{3, "repair the refused directory and SIGHUP again (configuration file untouched)", func() {
+					repairable = nil
+					nb := rp.newCfg.BaseDir
+					switch rk {
+					case dirNoAdmin:
+						def := rp.newCfg.SetMap()[rp.newCfg.Default]
+						w.fs.Put(nb+"/root.admin", []byte(RefWrite(def, "root-pw-"+nb, make([]byte, def.SaltLen()), 1000)+"\n"), 0o600)
+					case dirForeignFile:
+						w.fs.Delete(nb + "/notes.txt")
+					case dirMissing:
+						w.makeDir(dirValid, nb, rp.newCfg.SetMap()[rp.newCfg.Default])
+					}
+					simsignal.Raise(syscall.SIGHUP, -1)
+					r.Count("fault:sighup")
+					r.Count("probe:reload-retried-after-directory-repair")
+					pend = &pending{newCfg: rp.newCfg, expectNew: true, text: rp.text, desc: "same configuration file as the refused reload (" + rp.newCfg.Desc() + "), directory repaired"}
+					r.Logf("  reload retry: %s", pend.desc)
+				}}}
+			}
+			if issued >= nreload {
 				return nil
 			}
 			return []action{{3, "rewrite the configuration and SIGHUP", func() {
@@ -393,7 +423,10 @@ func propC18(r *Run) {
 				text := newCfg.YAML()
 				p := &pending{newCfg: newCfg, expectNew: kind == dirValid, text: text}
 				p.desc = fmt.Sprintf("new config %s, directory kind %d", newCfg.Desc(), kind)
-				switch r.Choose("config-fault", 6) {
+				cf := r.Choose("config-fault", 6)
+				p.dirOnly = kind != dirValid && cf > 2
+				p.kind = kind
+				switch cf {
 				case 0: // invalid document
 					text = strings.Replace(text, "default:", "defualt:", 1)
 					p.expectNew = false
@@ -462,6 +495,9 @@ func propC18(r *Run) {
 				}
 				oldTriple, cur = got, pend.newCfg
 			default:
+				if pend.dirOnly && got == oldTriple && r.Choose("repair-and-retry", 2) == 1 {
+					repairable, repairKind = pend, pend.kind
+				}
 				if got != oldTriple {
 					sig := "reload/invalid-applied"
 					if got != newTriple {
@@ -507,12 +543,12 @@ func propC18(r *Run) {
 	})
 }
 
-func setIDs(c Config) []int {
-	var ids []int
+func setIDs(c Config) []uint64 {
+	var ids []uint64
 	for _, s := range c.Sets {
-		ids = append(ids, int(s.ID))
+		ids = append(ids, uint64(s.ID))
 	}
-	sort.Ints(ids)
+	sort.Slice(ids, func(i, j int) bool { return ids[i] < ids[j] })
 	return ids
 }
 
